@@ -73,6 +73,14 @@ pub const TEMPLATES: &[&str] = &[
     "c := mut 0; t := (c += 1, c *= 2, c += 5, c *= 3); a := [c += 1, c *= 2, c += 5]; (t, a)",
     "c := mut 0; f := (a: int, b: int, d: int) -> [int] { return [a, b, d] }; f(c += 1, c *= 2, c += 5)",
     "c := mut 0; s := struct{a := ti(1, c += 1), b := ti(2, c *= 2), d := ti(3, c += 5)}; (s.a, s.b, s.d)",
+    // state built from constants belongs to the run, not to the parsed program
+    "s := mut (0, 10); t := *s; s = (t.0 + 1, t.1); u := *s; u.0",
+    "s := mut [0, 10]; s += [1]; std.len(*s)",
+    "s := mut struct{n := 0}; t := *s; s = struct{n := t.n + 1}; u := *s; u.n",
+    "s := mut \"a\"; s += \"b\"; *s",
+    "mk := () -> int { s := mut (0, (1, 2)); t := *s; s = (t.0 + 1, t.1); u := *s; return u.0 }; (mk(), mk())",
+    "it := [1, 2, 3]~; it(); it().1",
+    "fs := [mut 0, mut 0]; a := fs[0]; a += 1; *fs[0] + *fs[1]",
 ];
 
 fn profiles() -> Vec<Profile> {
@@ -227,6 +235,33 @@ fn check_program(text: &str, k: u64, rep: &mut Report) -> Option<String> {
             let payload_free = exhausted_payload_only(&digests[0], d);
             let key = if payload_free { "c05:program:value:exhausted-iterator-payload".to_string() } else { format!("c05:program:{asp}:in-process") };
             rep.violation(&key, &format!("two runs of one program differ ({asp}): {} vs {} :: {}", truncate(&digests[0], 200), truncate(d, 200), truncate(text.strip_prefix(PRELUDE).unwrap_or(text), 400)), "c05-program", text);
+            return None;
+        }
+    }
+    // one parsed program executed again (each time unscoped in a fresh interpreter): the outcome does not depend on the run
+    if let Ok(Ok(code)) = real::guarded(|| Code::parse(&Interpreter::with_stdlib(), text)) {
+        let mut outs: Vec<String> = Vec::new();
+        for _ in 0..3 {
+            let mut run_interp = Interpreter::with_stdlib();
+            let r = real::guarded(|| {
+                real::arm(6_000, real::DEFAULT_DEPTH);
+                code.exec_unscoped(&mut run_interp)
+            });
+            simplesl::verif::set_fuel(u64::MAX);
+            outs.push(match r {
+                Ok(Ok(v)) => format!("value={}", canon(&v)),
+                Ok(Err(e)) => format!("error={}", real::exec_err_kind(&e).map_or(format!("{e:?}"), |k| k.name().to_string())),
+                Err(p) if p.kind == PanicKind::Panic => format!("panic={}", p.site()),
+                Err(_) => {
+                    outs.clear();
+                    break;
+                }
+            });
+        }
+        rep.evaluations += outs.len() as u64;
+        rep.count("programs-executed-again");
+        if outs.len() == 3 && (outs[1] != outs[0] || outs[2] != outs[0]) && !exhausted_payload_only(&outs[0], &outs[1]) && !exhausted_payload_only(&outs[0], &outs[2]) {
+            rep.violation("c05:program:value:executed-again", &format!("three executions of one parsed program differ: {} / {} / {} :: {}", truncate(&outs[0], 120), truncate(&outs[1], 120), truncate(&outs[2], 120), truncate(text.strip_prefix(PRELUDE).unwrap_or(text), 400)), "c05-program", text);
             return None;
         }
     }
